@@ -152,7 +152,7 @@ def packaging(tier, rng, rep):
         for nm, r in results.items():
             if r is None:
                 continue
-            if np.shape(r) != np.shape(ref) or np.max(np.abs(np.asarray(r, dtype=complex) - np.asarray(ref, dtype=complex))) > tol * (1 + np.max(np.abs(np.asarray(ref, dtype=complex)))):
+            if np.shape(r) != np.shape(ref) or not np.all(np.abs(np.asarray(r, dtype=complex) - np.asarray(ref, dtype=complex)) <= tol * (1 + np.max(np.abs(np.asarray(ref, dtype=complex))))):
                 rep.fail("same_result_across_packagings", f"{what}: {nm} differs from {ref_name}", {"entry": what, "packaging": nm})
 
     for v in values:
@@ -241,7 +241,7 @@ def packaging(tier, rng, rep):
             rep.case(key=("coxm", tri, pname))
             if r is not None and res:
                 ref = next(iter(res.values()))[:9]
-                if not np.all(np.isfinite(r)) or np.max(np.abs(r - ref)) > 1e-9:
+                if not np.all(np.isfinite(r)) or not np.all(np.abs(r - ref) <= 1e-9):
                     rep.fail("same_result_across_packagings", f"CoxeterGroup(matrix) {pname} differs from the diagram route", inp)
 
 
@@ -250,7 +250,7 @@ def packaging(tier, rng, rep):
          note="random per-unit factors in +-[0.1,10], dimensions 2..5, composite shapes")
 def rescaling_sampling(tier, rng, rep):
     N = 300 if tier == 'thorough' else 60
-    rep.rule = "random interior points, n=2..5, shapes (), (3,), (2,2); independent random factors in +-[0.1,10] per unit; non-trivial = at least one negative factor"
+    rep.rule = "random interior points, n=2..5, shapes (), (3,), (2,2); independent random factors in +-[0.1,10] per unit; one third of the rounds on the dyadic lattice (1/4)Z^n with exact factors +-2^j (degenerate intermediate quantities); non-trivial = at least one negative factor"
     rep.bound = f"{N} rounds"
     for t in range(N):
         n = int(rng.integers(2, 6))
@@ -262,37 +262,92 @@ def rescaling_sampling(tier, rng, rep):
         k, l = kl(), kl()
         fa = rng.choice([-1, 1], size=shape + (1,)) * 10 ** rng.uniform(-1, 1, size=shape + (1,))
         fb = rng.choice([-1, 1], size=shape + (1,)) * 10 ** rng.uniform(-1, 1, size=shape + (1,))
+        if t % 3 != 1 and t % 2 == 0:
+            # structured inputs: Klein coordinates on the dyadic lattice (1/4)Z^n (origin, axis points, orthogonal pairs) and
+            # exact factors +-2^j: intermediate quantities such as <x,y> - <y,y> vanish exactly, which random reals never hit
+            def lat():
+                while True:
+                    v = rng.integers(-3, 4, size=shape + (n,)) / 4.0
+                    if np.all(np.sum(v * v, axis=-1) < 0.95):
+                        return v
+            k, l = lat(), lat()
+            l = np.where(np.all(k == l, axis=-1, keepdims=True), -l + (np.arange(n) == 0) * 0.25, l)
+            if t % 4 == 0:
+                l = l * (rng.random(size=shape + (1,)) < 0.5)        # second endpoint at the origin for about half of the units
+            fa = rng.choice([-1, 1], size=shape + (1,)) * 2.0 ** rng.integers(-2, 3, size=shape + (1,))
+            fb = rng.choice([-1, 1], size=shape + (1,)) * 2.0 ** rng.integers(-2, 3, size=shape + (1,))
+            l = np.where(np.all(k == l, axis=-1, keepdims=True), l + (np.arange(n) == 0) * 0.25, l)
         x, y = spec.k2proj(k), spec.k2proj(l)
         inp = {"n": n, "shape": list(shape), "k": k.tolist(), "l": l.tolist(), "fa": fa.tolist(), "fb": fb.tolist()}
 
         def body():
             A0, B0, A1, B1 = pt(x), pt(y), pt(fa * x), pt(fb * y)
             for m in ("klein", "poincare", "halfspace"):
-                if np.max(np.abs(A1.coords(m) - A0.coords(m))) > 1e-7 * (1 + np.max(np.abs(A0.coords(m)))):
+                if not np.all(np.abs(A1.coords(m) - A0.coords(m)) <= 1e-7 * (1 + np.max(np.abs(A0.coords(m))))):
                     rep.fail("coords_rescaling", m, inp)
-            if np.max(np.abs(A1.distance(B1) - A0.distance(B0))) > 1e-7:
+            if not np.all(np.abs(A1.distance(B1) - A0.distance(B0)) <= 1e-7):
                 rep.fail("distance_rescaling", "", inp)
-            S0, S1 = h.Segment(A0, B0), h.Segment(A1, B1)
+            # fresh Point objects: distance / coords may renormalise a Point's own representative in place
+            S0, S1 = h.Segment(pt(x), pt(y)), h.Segment(pt(fa * x), pt(fb * y))
             i0, i1 = np.sort(S0.ideal_endpoint_coords("klein"), axis=-2), np.sort(S1.ideal_endpoint_coords("klein"), axis=-2)
-            if np.max(np.abs(i0 - i1)) > 1e-6:
+            if not np.all(np.abs(i0 - i1) <= 1e-6):
                 rep.fail("ideal_endpoints_rescaling", "", inp)
             d = A0.distance(B0)
             z0 = A0.unit_tangent_towards(B0).point_along(d).coords("klein")
             tv1 = A1.unit_tangent_towards(B1)
             z1 = tv1.point_along(d).coords("klein")
             z2 = tv1.normalized().point_along(d).coords("klein")
-            if np.max(np.abs(z0 - l)) > 1e-6 or np.max(np.abs(z1 - l)) > 1e-6 or np.max(np.abs(z2 - l)) > 1e-6:
+            if not np.all(np.abs(z0 - l) <= 1e-6) or not np.all(np.abs(z1 - l) <= 1e-6) or not np.all(np.abs(z2 - l) <= 1e-6):
                 rep.fail("tangent_direction_rescaling", "following the tangent towards q does not arrive at q for rescaled representatives", inp)
             tv0 = A0.unit_tangent_towards(B0)
             M0 = tv0.origin_to().proj_data
             M1 = h.TangentVector(fa * tv0.point, fa * tv0.vector).origin_to().proj_data
-            if n == 2 and np.max(np.abs(M0 - M1)) > 1e-7:
+            if n == 2 and not np.all(np.abs(M0 - M1) <= 1e-7):
                 rep.fail("origin_to_rescaling", "", inp)
             ang0 = tv0.angle(A0.unit_tangent_towards(pt(spec.k2proj(kl()))))
             if shape == ():
                 Pg0 = h.Polygon(h.Point(np.stack([x, y, spec.k2proj(kl())])))
                 Pg1 = h.Polygon(h.Point(np.stack([fa * x, fb * y, Pg0.proj_data[2] * -2.5])))
-                if np.max(np.abs(Pg0.get_vertices().coords("poincare") - Pg1.get_vertices().coords("poincare"))) > 1e-7:
+                if not np.all(np.abs(Pg0.get_vertices().coords("poincare") - Pg1.get_vertices().coords("poincare")) <= 1e-7):
                     rep.fail("polygon_rescaling", "", inp)
+                e0, e1 = (np.sort(Pg.get_edges().ideal_endpoint_coords("klein"), axis=-2) for Pg in (Pg0, Pg1))
+                if not np.all(np.abs(e0 - e1) <= 1e-6):
+                    rep.fail("polygon_edges_rescaling", "ideal endpoints of the polygon's edges", inp)
         rep.attempt("rescaling_runs", inp, body)
         rep.case(key=(t,), nontrivial=bool(np.any(fa < 0) or np.any(fb < 0)), sample=inp if t == 0 else None)
+
+
+@bounded(P, "representatives_with_lightlike_difference", functions=[H + "Segment._compute_aux_data", H + "Segment.circle_parameters", H + "Polygon.__init__"],
+         note="representatives x, y of two distinct points whose difference x - y is lightlike (the segment quadratic in the parameter mu x + (1-mu) y loses its leading coefficient)")
+def representatives_with_lightlike_difference(tier, rng, rep):
+    rep.rule = ("integer representatives y = x + s n with n a rational null vector (Pythagorean triples / quadruples), n = 2, 3: <x - y, x - y> = 0 exactly; "
+                "ideal endpoints and Poincare circle compared with the same segment given by Klein coordinates")
+    nulls = {2: [(5, 3, 4), (5, -4, 3), (13, 5, -12), (1, 1, 0), (1, 0, -1), (17, -8, -15)], 3: [(3, 1, 2, 2), (7, 2, 3, -6), (9, -4, 4, 7), (1, 0, 0, 1)]}
+    N = 120 if tier == 'thorough' else 30
+    rep.bound = f"{N} segments per dimension"
+    for n in (2, 3):
+        for t in range(N):
+            nv = np.array(nulls[n][t % len(nulls[n])], dtype=float)
+            while True:
+                sp = rng.integers(-3, 4, size=n)
+                x = np.concatenate([[int(np.sum(np.abs(sp))) + 1 + int(rng.integers(0, 3))], sp]).astype(float)
+                if x @ spec.J(n + 1) @ x < 0:
+                    break
+            y = x + float(rng.integers(1, 4)) * nv
+            if t % 3 == 0:
+                x, y = y, x
+            if t % 4 == 1:
+                y = -y          # then x + y is lightlike instead; the other sheet is the same point
+            inp = {"n": n, "x": x.tolist(), "y": y.tolist()}
+
+            def body():
+                S1 = h.Segment(pt(x), pt(y))
+                S0 = h.Segment(h.Point((x[1:] / x[0]).copy(), model="klein"), h.Point((y[1:] / y[0]).copy(), model="klein"))
+                i0, i1 = S0.ideal_endpoint_coords("klein"), S1.ideal_endpoint_coords("klein")
+                if not np.all(np.abs(i0 - i1) <= 1e-7):
+                    rep.fail("ideal_endpoints_rescaling", f"{i1.tolist()} vs {i0.tolist()}", inp); return
+                (c0, r0), (c1, r1) = S0.sphere_parameters(model=h.Model.POINCARE), S1.sphere_parameters(model=h.Model.POINCARE)
+                if np.all(np.isfinite(c0)) and (not np.all(np.abs(c0 - c1) <= 1e-7 * (1 + np.abs(r0))) or not np.all(np.abs(r0 - r1) <= 1e-7 * (1 + np.abs(r0)))):
+                    rep.fail("circle_rescaling", f"{c1}, {r1} vs {c0}, {r0}", inp)
+            rep.attempt("segment_runs", inp, body)
+            rep.case(key=(n, t), nontrivial=True, sample=inp if t == 0 else None)
